@@ -294,6 +294,7 @@ def install_replay(reg, src):
 
 # ======================================================================================= C05: LP coefficient extraction
 def install_lp(reg, src):
+    reg.mark_inline(f"{M}:_constant_factor")      # (present after the D11 repair) degree test + constant of a non-literal factor
     from .compiler_c import fresh_var_indices, index_term, NV, INDOM, DOMOF, make_index_map
     from pyvc.values import SArr, SMap, SSeq, Unsupported, real_term
     DOT = sym.fn("DOT", sym.RealArr, sym.I, sym.RealArr, sym.R)        # sum_{j<n} a[j] * x[j]
@@ -421,6 +422,7 @@ def install_lp(reg, src):
             install_lp_loops(c, sp, e, case, res, old, mt, X, n)
         else:
             res.arr = sym.fresh("result_after", sym.RealArr)        # modifies: result (nothing else)
+        c.raises("NonLinearError", when=None, name="raises NonLinearError (a product neither factor of which is reported constant)")
         c.returns(T.none())
 
         def post(_ret):
